@@ -357,7 +357,7 @@ def run(res, tier):
         nguard += len(ex.guarded) + len(ex.unguarded)
         toptree_state(facts, cls, res)
     res.floor("C12.1", nguard, 30, "guarded stage calls")
-    if tier == "thorough":
+    if tier in ("quick", "thorough"):      # the Specx / StarPU executors (declaration stubs) are analysed on every run: the unit tests never compile them, so nothing else would notice a change there
         sf = tbf.scan("specx")
         res.units.append("umbrella TU 'specx' (declaration-only Specx stub)")
         for cls in SPECX:
